@@ -176,6 +176,9 @@ class CorrelationFunction(DFunction, UnitsManaged):
 #                        raise Exception("Dictionary of parameters does not contain "
 #                                        +" `ftype` key")                    
         
+                    # each component is created according to its own type
+                    ftype = prms["ftype"]
+                    
                     if ftype == "OverdampedBrownian-HighTemperature":
             
                         self._make_overdamped_brownian_ht(prms) #, values=values)
